@@ -364,10 +364,22 @@ retryResolution:
 			f.resolutionCache.Store(serverName, resolutionResults)
 		}
 	} else {
+		// No well-known or SRV lookups: what is left of the resolution are the
+		// steps that need none. The TLS server name is the host without the
+		// port, and a name without a port is served on 8448.
+		host, port, valid := spec.ParseAndValidateServerName(serverName)
+		if !valid {
+			return nil, fmt.Errorf("Invalid server name")
+		}
+		tlsServerName := strings.TrimSuffix(strings.TrimPrefix(host, "["), "]")
+		destination := string(serverName)
+		if port == -1 {
+			destination = net.JoinHostPort(tlsServerName, "8448")
+		}
 		resolutionResults = append(resolutionResults, ResolutionResult{
-			Destination:   r.URL.Host,
-			Host:          spec.ServerName(r.Host),
-			TLSServerName: r.Host,
+			Destination:   destination,
+			Host:          serverName,
+			TLSServerName: tlsServerName,
 		})
 	}
 
